@@ -13,6 +13,7 @@ import AcryoVerif.Model.Frame
 import AcryoVerif.Model.Pose
 import AcryoVerif.Model.Rigid
 import AcryoVerif.Model.Loader
+import AcryoVerif.Model.Cache
 
 /-! Dispatch of hand-written model operations for the line-protocol driver. -/
 namespace Model
@@ -336,6 +337,36 @@ partial def runBatch (r : List BRow) (imgs : List Int) (next : Nat) (a : List Ra
 
 def opBatch (a : Array Rat) : String := " ; ".intercalate (runBatch [] [] 0 a.toList [])
 
+/-- `cache nthreads sched...` : all threads call `get` with their own Backend instance of module 0 on a
+cache holding one entry written by `__init__`; prints each thread's outcome and the dict size. -/
+def opCache (a : Array Rat) : String :=
+  let n := (i a 0).toNat
+  let keys := (List.range n).map fun t => (⟨0, t + 1⟩ : BKey)
+  let s := run Gen.backendEqByModule ⟨[(⟨0, 0⟩, 7)], freshThreads keys⟩ ((a.toList.drop 1).map fun q => q.floor.toNat)
+  let sh (t : Thread) : String := match t.st with
+    | .running _ _ => "running"
+    | .returned (some _) => "ret"
+    | .returned none => "none"
+    | .raised => "raised"
+  " ".intercalate (s.threads.map sh) ++ s!" size={s.dict.length}"
+
+/-- `ldsShape kind m0 m1 m2 upsample N0 N1 N2` → landscape shape (kind 0 zncc, 1 ncc, 2 pcc, 3 fsc) -/
+def opLdsShape (a : Array Rat) : String :=
+  let kind := i a 0
+  let u := i a 4
+  let need := Gen.landscapeNeedUpsample u
+  let pad : Int := Gen.landscapePad need
+  let side (k : Nat) : Int :=
+    let m := a[1 + k]! + (pad : Rat)
+    let N := i a (5 + k)
+    let base : Int :=
+      if kind == 0 then (2 * Gen.paddingWidth m - 1) - 2 * Gen.padWidthEff1 m (2 * Gen.paddingWidth m - 1)
+      else if kind == 1 then (2 * Gen.paddingWidth m - 1) - 2 * Gen.padWidthEff0 m (2 * Gen.paddingWidth m - 1)
+      else if kind == 2 then (Gen.pccLandscapeBounds m m N).2.2 - (Gen.pccLandscapeBounds m m N).2.1
+      else Gen.fscOutShape m
+    if need then (Gen.buildMeshAxis a[1 + k]! u base).2.2.2 else base
+  Canon.canon (side 0, side 1, side 2)
+
 def dispatch (name : String) (a : Array Rat) : Option String :=
   match name with
   | "prepAffine" => some (flat (opPrepAffine a))
@@ -372,6 +403,8 @@ def dispatch (name : String) (a : Array Rat) : Option String :=
   | "affine" => some (opAffine a)
   | "eulerTr" => some (opEulerTr a)
   | "batch" => some (opBatch a)
+  | "cache" => some (opCache a)
+  | "ldsShape" => some (opLdsShape a)
   | _ => none
 
 end Model
